@@ -203,6 +203,33 @@ def run(ctx):
             ctx.violations.append({"name": "case-" + h, "property": "C20", "kind": "failing-input", "why": why, "args": args,
                                    "observed": {k: (v if k != "contents" else {str(i): c for i, c in v.items()}) for k, v in r.items()},
                                    "class": "c20-disagreement"})
+    # name rule against Model.Wrapper.wrapped_name: the link's name decides which program is run
+    names = ["recb", "toolb", "xbb", "plain", "kubectl-x", "ab", "zb.b"]
+    mo_names = ctx.model([["wrappedname", nm] for nm in names])
+    for nm, m in zip(names, mo_names):
+        link = os.path.join(pd, nm)
+        if not os.path.lexists(link):
+            os.symlink(os.path.join(ctx.bindir, "bklb"), link)
+        want = m[1] if isinstance(m, list) and m and m[0] == "run" else None
+        recdir = os.path.join(ctx.work, "recname_" + nm)
+        shutil.rmtree(recdir, ignore_errors=True)
+        os.makedirs(os.path.join(recdir, "tmp"))
+        if want is not None and not os.path.lexists(os.path.join(pd, want)):
+            with open(os.path.join(pd, want), "w") as f:
+                f.write(STANDIN + 'basename "$0" > "$out/name"\n')
+            os.chmod(os.path.join(pd, want), 0o755)
+        rc, out, err = core.cli(link, ["x"], d, env={"PATH": pd + ":/usr/bin:/bin", "REC_OUT": recdir, "TMPDIR": os.path.join(recdir, "tmp")})
+        ran = os.path.exists(os.path.join(recdir, "ran"))
+        dist["name_rule_cases"] = dist.get("name_rule_cases", 0) + 1
+        why = None
+        if want is None and (ran or rc == 0 or "Usage" not in err):
+            why = "bklb under the name %r (not ending in b) did not print usage and fail" % nm
+        elif want is not None and want != "rec" and not ran:
+            why = "bklb under the name %r did not run %r (rc=%d %s)" % (nm, want, rc, err[-100:])
+        elif want is not None and ran and os.path.exists(os.path.join(recdir, "name")) and open(os.path.join(recdir, "name")).read().strip() != want:
+            why = "bklb under the name %r ran %r, the model says %r" % (nm, open(os.path.join(recdir, "name")).read().strip(), want)
+        if why and len(ctx.violations) < 5:
+            ctx.violations.append({"name": "name-" + nm, "property": "C20", "kind": "failing-input", "why": why, "class": "c20-name"})
     # name rule: run as a name not ending in b
     rc, out, err = core.cli(os.path.join(pd, "plain"), ["x"], d, env={"PATH": pd + ":/usr/bin:/bin"})
     if rc == 0 or "Usage" not in err:
